@@ -27,7 +27,7 @@ type vfC19HS struct {
 	w    *vfc19.World
 	now  time.Time
 	res  *vfh.Result
-	auto []byte
+	auto map[string][]byte
 }
 
 type vfC19Rand struct{ r *rand.Rand }
@@ -72,10 +72,13 @@ func (s *vfC19HS) Server(srv, host, authz string) vfc19.ServerObs {
 	key := s.w.HmacKey[srv]
 	if key == nil { // "auto-generated default secret": 32 random bytes, as ServerPeerIDAuth makes them
 		if s.auto == nil {
-			s.auto = make([]byte, 32)
-			rand.New(rand.NewSource(vfh.Seed() + 77)).Read(s.auto)
+			s.auto = map[string][]byte{}
 		}
-		key = s.auto
+		if s.auto[srv] == nil { // every default-keyed server draws its own
+			s.auto[srv] = make([]byte, 32)
+			rand.New(rand.NewSource(vfh.Seed() + 77 + int64(len(srv)))).Read(s.auto[srv])
+		}
+		key = s.auto[srv]
 	}
 	hs := handshake.PeerIDAuthHandshakeServer{Hostname: host, PrivKey: s.w.SrvPriv(srv), TokenTTL: s.w.TokenTTL,
 		Hmac: hmac.New(sha256.New, key)}
